@@ -1,8 +1,18 @@
 //! Generator of multi-module TypeScript packages with a *recorded* intended
-//! public API: which names each module exports, which declarations are
-//! reachable from the entrypoints through signature positions only (the
-//! expected retained set) and whether a public declaration is deliberately
-//! non-inferable (a diagnostic must be produced).
+//! public API: which declarations are reachable from the entrypoints through
+//! signature positions only (the expected retained set) and whether a public
+//! declaration is deliberately non-inferable (a diagnostic must be produced).
+//!
+//! Every declaration draws references to earlier declarations; each reference
+//! is written either in a *signature position* (type annotations of public
+//! members / parameters / returns, type-parameter constraints and defaults,
+//! heritage clauses and their type arguments, overload signatures, interface
+//! and alias bodies, public / protected parameter properties, exported
+//! namespace members) or in an *implementation position* (function bodies,
+//! the implementation signature of an overloaded function / method /
+//! constructor, TypeScript-private and #private members, parameters of a
+//! private constructor, initialisers of annotated variables). Only
+//! references that were really written are recorded.
 
 use crate::runner::idx;
 use proptest::prelude::*;
@@ -38,12 +48,17 @@ pub struct RawDecl {
   pub sig_refs: Vec<u16>,
   /// references placed in implementation positions only
   pub impl_refs: Vec<u16>,
-  /// 0 fully annotated, 1 trivially inferable, 2 non-inferable
+  /// 0 fully annotated, 1 trivially inferable, 2 non-inferable, 3 an
+  /// un-annotated initialiser of unknown standing (no expectation)
   pub explicitness: u8,
   /// how cross-module references are written: 0 named import, 1 `import
-  /// type`, 2 namespace import + qualified name, 3 `import("...")` type
+  /// type`, 2 namespace import + qualified name, 3 `import("...")` type;
+  /// +4: through a module that re-exports the target, +8: non-canonical path
   pub import_style: u8,
   pub variant: u8,
+  /// further shape bits (members, overloads, accessors, expando, ...)
+  #[serde(default)]
+  pub shape: u16,
 }
 
 #[derive(Clone, Debug, Serialize, Deserialize)]
@@ -53,9 +68,16 @@ pub struct RawPackage {
   /// re-exports written in the entry module: (module, style) style 0 named,
   /// 1 star, 2 `* as ns`, 3 `export type`
   pub reexports: Vec<(u8, u8)>,
-  /// second entrypoint (`./b`) exported by the package
+  /// second entrypoint exported by the package
   pub second_entry: bool,
   pub default_export: Option<u16>,
+  /// re-exports written in the other modules: (from, to, style, pick)
+  #[serde(default)]
+  pub inner_reexports: Vec<(u8, u8, u8, u16)>,
+  /// keep a by-name re-export whose target re-exports the re-exporting module
+  /// back (a recorded finding; never set by the generator)
+  #[serde(default)]
+  pub allow_named_cycle: bool,
 }
 
 pub fn raw_package(max_decls: usize) -> impl Strategy<Value = RawPackage> {
@@ -63,14 +85,15 @@ pub fn raw_package(max_decls: usize) -> impl Strategy<Value = RawPackage> {
     0..7u8,
     0..4u8,
     proptest::bool::weighted(0.45),
-    proptest::collection::vec(any::<u16>(), 0..=2),
+    proptest::collection::vec(any::<u16>(), 0..=4),
     proptest::collection::vec(any::<u16>(), 0..=3),
-    prop_oneof![6 => Just(0u8), 3 => Just(1u8), 1 => Just(2u8)],
-    0..4u8,
-    0..4u8,
+    prop_oneof![12 => Just(0u8), 6 => Just(1u8), 2 => Just(2u8), 1 => Just(3u8)],
+    0..16u8,
+    any::<u8>(),
+    any::<u16>(),
   )
     .prop_map(
-      |(kind, module, exported, sig_refs, impl_refs, explicitness, import_style, variant)| RawDecl {
+      |(kind, module, exported, sig_refs, impl_refs, explicitness, import_style, variant, shape)| RawDecl {
         kind,
         module,
         exported,
@@ -79,6 +102,7 @@ pub fn raw_package(max_decls: usize) -> impl Strategy<Value = RawPackage> {
         explicitness,
         import_style,
         variant,
+        shape,
       },
     );
   (
@@ -87,17 +111,43 @@ pub fn raw_package(max_decls: usize) -> impl Strategy<Value = RawPackage> {
     proptest::collection::vec((0..4u8, 0..4u8), 0..=3),
     proptest::bool::weighted(0.3),
     proptest::option::weighted(0.2, any::<u16>()),
+    proptest::collection::vec(
+      (1..4u8, 0..4u8, prop_oneof![2 => Just(0u8), 4 => Just(1u8), 1 => Just(2u8), 1 => Just(3u8)], any::<u16>()),
+      0..=4,
+    ),
   )
-    .prop_map(|(decls, n_modules, reexports, second_entry, default_export)| RawPackage {
-      decls,
-      n_modules,
-      reexports,
-      second_entry,
-      default_export,
-    })
+    .prop_map(
+      |(decls, n_modules, reexports, second_entry, default_export, inner_reexports)| RawPackage {
+        decls,
+        n_modules,
+        reexports,
+        second_entry,
+        default_export,
+        inner_reexports,
+        allow_named_cycle: false,
+      },
+    )
 }
 
-pub const MODULE_PATHS: &[&str] = &["/mod.ts", "/a.ts", "/b.ts", "/c.ts"];
+pub const MODULE_PATHS: &[&str] = &["/mod.ts", "/a.ts", "/sub/b.ts", "/sub/deep/c.ts"];
+
+/// relative specifier from module path `from` to module path `to`
+pub fn rel(from: &str, to: &str, noncanonical: bool) -> String {
+  let fd: Vec<&str> = from.rsplit_once('/').map(|x| x.0).unwrap_or("").split('/').filter(|s| !s.is_empty()).collect();
+  let tp: Vec<&str> = to.split('/').filter(|s| !s.is_empty()).collect();
+  let tdirs = &tp[..tp.len() - 1];
+  let mut common = 0;
+  while common < fd.len() && common < tdirs.len() && fd[common] == tdirs[common] {
+    common += 1;
+  }
+  let ups = fd.len() - common;
+  let mut s = if ups == 0 { "./".to_string() } else { "../".repeat(ups) };
+  if noncanonical {
+    s.push_str("zz/../");
+  }
+  s.push_str(&tp[common..].join("/"));
+  s
+}
 
 #[derive(Clone, Debug)]
 pub struct Decl {
@@ -109,12 +159,19 @@ pub struct Decl {
   pub sig_refs: Vec<usize>,
   pub impl_refs: Vec<usize>,
   pub non_inferable: bool,
+  /// un-annotated initialiser of unknown standing
+  pub maybe_inferable: bool,
+  /// declared with type parameters (all of which have defaults)
+  pub generic: bool,
+  /// namespaces: the references written in the member `In`, which is all a
+  /// qualified reference `N.In` makes public
+  pub member_refs: Vec<usize>,
 }
 
 #[derive(Clone, Debug, Default)]
 pub struct Recorded {
-  /// module path -> names the module exports (own declarations, re-exports by
-  /// name, `default`, `* as ns`) — star re-exports listed separately
+  /// module path -> names the module exports itself (own declarations,
+  /// re-exports by name, `default`, `* as ns`)
   pub exports: BTreeMap<String, BTreeSet<String>>,
   /// module path -> specifiers of `export * from`
   pub star_exports: BTreeMap<String, Vec<String>>,
@@ -124,11 +181,22 @@ pub struct Recorded {
   pub declared: BTreeMap<String, BTreeSet<String>>,
   /// a retained declaration is deliberately non-inferable
   pub expects_diagnostic: bool,
+  /// a retained declaration has an initialiser of unknown standing
+  pub maybe_diagnostic: bool,
   pub entrypoints: Vec<String>,
   pub has_impl_only_private: bool,
   pub has_sig_private: bool,
   pub cross_module_refs: usize,
   pub max_chain: usize,
+  /// shapes that were written (for the label histogram)
+  pub shapes: BTreeSet<&'static str>,
+  /// namespaces that are public as a whole (exported by an entrypoint, not
+  /// merely named through `N.In`): (module path, name)
+  pub whole_namespaces: BTreeSet<(String, String)>,
+  /// a by-name re-export sits inside a cycle of re-exports
+  pub named_reexport_in_cycle: bool,
+  /// by-name re-exports left out because they would sit inside such a cycle
+  pub excluded_named_cycles: usize,
 }
 
 #[derive(Clone, Debug)]
@@ -154,68 +222,176 @@ fn kind_of(k: u8) -> Kind {
 }
 
 struct ModuleOut {
-  imports: BTreeMap<(usize, u8), BTreeSet<String>>, // (module, style) -> names
+  imports: BTreeMap<(usize, u8, bool), BTreeSet<String>>, // (module, style, noncanonical) -> names
   ns_imports: BTreeSet<usize>,
   body: String,
 }
 
+const EXP: &str = "\u{1}E\u{1}";
+
+struct Ctx<'a> {
+  raw: &'a RawPackage,
+  decls: Vec<Decl>,
+  outs: Vec<ModuleOut>,
+  rec: Recorded,
+  /// star_reach[m] = modules whose exports `m` passes on through `export *`
+  star_reach: Vec<BTreeSet<usize>>,
+  star_dist: Vec<Vec<usize>>,
+}
+
+impl Ctx<'_> {
+  /// text of a reference from declaration `i` to declaration `j`
+  fn ref_text(&mut self, i: usize, j: usize, type_pos: bool, bare: bool) -> String {
+    let from = self.decls[i].module;
+    let to = self.decls[j].module;
+    let name = self.decls[j].name.clone();
+    let kind = self.decls[j].kind;
+    let typeof_needed = type_pos && !bare && !kind.is_type() && kind != Kind::Namespace;
+    let style_all = self.raw.decls[i].import_style;
+    let style = style_all % 4;
+    let base = if from == to {
+      name.clone()
+    } else {
+      self.rec.cross_module_refs += 1;
+      // through a module that re-exports everything of `to`
+      // (the module with the longest chain of `export *` to the target)
+      let via = if style_all & 4 != 0 {
+        (0..self.outs.len())
+          .filter(|m| *m != from && *m != to && self.star_reach[*m].contains(&to))
+          .max_by_key(|m| self.star_dist[*m][to])
+      } else {
+        None
+      };
+      if let Some(m) = via {
+        if self.star_dist[m][to] >= 2 {
+          self.rec.shapes.insert("import-through-two-star-hops");
+        }
+      }
+      let src = via.unwrap_or(to);
+      if via.is_some() {
+        self.rec.shapes.insert("import-through-re-export");
+      }
+      let nc = style_all & 8 != 0;
+      if nc {
+        self.rec.shapes.insert("non-canonical-specifier");
+      }
+      match style {
+        2 => {
+          self.outs[from].ns_imports.insert(src);
+          format!("m{src}.{name}")
+        }
+        3 if type_pos && !typeof_needed && !bare => {
+          format!("import(\"{}\").{name}", rel(MODULE_PATHS[from], MODULE_PATHS[src], nc))
+        }
+        1 if type_pos && !bare && matches!(kind, Kind::Interface | Kind::Alias) => {
+          self.outs[from].imports.entry((src, 1, nc)).or_default().insert(name.clone());
+          name.clone()
+        }
+        _ => {
+          self.outs[from].imports.entry((src, 0, nc)).or_default().insert(name.clone());
+          name.clone()
+        }
+      }
+    };
+    if kind == Kind::Namespace {
+      // a member of the namespace (every namespace shape exports `In`)
+      self.rec.shapes.insert("qualified-namespace-member");
+      return format!("{base}.In");
+    }
+    if typeof_needed {
+      format!("typeof {base}")
+    } else {
+      base
+    }
+  }
+}
+
+struct Slots {
+  sig: Vec<(usize, bool)>,
+  imp: Vec<(usize, bool)>,
+  prim: usize,
+}
+
+impl Slots {
+  /// the next unused signature reference as a type, or a primitive
+  fn s(&mut self, cx: &mut Ctx, i: usize) -> String {
+    for k in 0..self.sig.len() {
+      if !self.sig[k].1 {
+        self.sig[k].1 = true;
+        let j = self.sig[k].0;
+        return cx.ref_text(i, j, true, false);
+      }
+    }
+    self.prim += 1;
+    ["number", "string", "boolean"][self.prim % 3].to_string()
+  }
+  /// an unused signature reference of a given kind, as a bare name
+  fn s_kind(&mut self, cx: &mut Ctx, i: usize, pred: impl Fn(Kind) -> bool) -> Option<(usize, String)> {
+    for k in 0..self.sig.len() {
+      let j = self.sig[k].0;
+      if !self.sig[k].1 && pred(cx.decls[j].kind) {
+        self.sig[k].1 = true;
+        return Some((j, cx.ref_text(i, j, true, true)));
+      }
+    }
+    None
+  }
+  /// the next unused implementation reference as a type
+  fn i(&mut self, cx: &mut Ctx, i: usize) -> Option<String> {
+    for k in 0..self.imp.len() {
+      if !self.imp[k].1 {
+        self.imp[k].1 = true;
+        let j = self.imp[k].0;
+        return Some(cx.ref_text(i, j, true, false));
+      }
+    }
+    None
+  }
+  fn i_or(&mut self, cx: &mut Ctx, i: usize, fallback: &str) -> String {
+    self.i(cx, i).unwrap_or_else(|| fallback.to_string())
+  }
+  /// all remaining implementation references as body statements
+  fn body(&mut self, cx: &mut Ctx, i: usize) -> String {
+    let mut s = String::new();
+    let mut k = 0;
+    while let Some(t) = self.i(cx, i) {
+      s.push_str(&format!(" const t{k}: {t} = null as any; void t{k};"));
+      k += 1;
+    }
+    s
+  }
+}
+
 pub fn build(raw: &RawPackage) -> Package {
   let n_modules = raw.n_modules.clamp(1, 4) as usize;
-  // resolve declarations; references only go to earlier declarations, which
-  // keeps the reference graph acyclic (cycles come from re-exports)
+  // ----- declarations and their candidate references (earlier declarations
+  // only, which keeps the reference graph acyclic; cycles come from re-exports)
   let mut decls: Vec<Decl> = Vec::new();
   for (i, r) in raw.decls.iter().enumerate() {
     let kind = kind_of(r.kind);
     let module = (r.module as usize) % n_modules;
-    let pick = |refs: &Vec<u16>, want_type: bool, decls: &Vec<Decl>| -> Vec<usize> {
+    let pick = |refs: &Vec<u16>, decls: &Vec<Decl>| -> Vec<usize> {
       let mut out = Vec::new();
       if decls.is_empty() {
         return out;
       }
       for r in refs {
         let j = idx(*r, decls.len());
-        let t = &decls[j];
-        // namespaces are not referenced (keeps qualified names out of scope)
-        if t.kind == Kind::Namespace {
-          continue;
-        }
-        if want_type && !(t.kind.is_type() || t.kind.is_value()) {
-          continue;
-        }
         if !out.contains(&j) {
           out.push(j);
         }
       }
       out
     };
-    let sig_refs = if matches!(kind, Kind::Enum) {
-      vec![]
-    } else {
-      pick(&r.sig_refs, true, &decls)
-    };
-    let impl_refs = if matches!(kind, Kind::Function | Kind::Var | Kind::Class) {
-      pick(&r.impl_refs, true, &decls)
+    let sig_refs = if matches!(kind, Kind::Enum) { vec![] } else { pick(&r.sig_refs, &decls) };
+    let mut impl_refs = if matches!(kind, Kind::Function | Kind::Var | Kind::Class) {
+      pick(&r.impl_refs, &decls)
     } else {
       vec![]
     };
-    // keep only the references the rendering below really writes
-    let mut sig_refs = sig_refs;
-    let mut impl_refs = impl_refs;
-    let one = match kind {
-      Kind::Function => r.explicitness != 0,
-      Kind::Var => true,
-      Kind::Alias => r.variant % 3 == 2,
-      _ => false,
-    };
-    if one {
-      sig_refs.truncate(1);
-    }
-    if kind == Kind::Var && r.explicitness != 0 {
-      sig_refs.clear();
-      impl_refs.clear();
-    }
-    let non_inferable =
-      r.explicitness == 2 && matches!(kind, Kind::Function | Kind::Var);
+    impl_refs.retain(|j| !sig_refs.contains(j));
+    let non_inferable = r.explicitness == 2 && matches!(kind, Kind::Function | Kind::Var);
+    let maybe_inferable = r.explicitness == 3 && kind == Kind::Var;
     decls.push(Decl {
       name: format!("D{i}"),
       kind,
@@ -224,269 +400,650 @@ pub fn build(raw: &RawPackage) -> Package {
       sig_refs,
       impl_refs,
       non_inferable,
+      maybe_inferable,
+      generic: false,
+      member_refs: Vec::new(),
     });
   }
-  // anything referenced from another module must be exported by its module
-  let mut must_export: BTreeSet<usize> = BTreeSet::new();
-  for d in &decls {
-    for r in d.sig_refs.iter().chain(d.impl_refs.iter()) {
-      if decls[*r].module != d.module {
-        must_export.insert(*r);
+
+  // ----- re-export structure (decided before rendering: references may go
+  // through a re-exporting module)
+  // star[m] = targets of `export * from`, named[m] = (target, style, pick),
+  // ns[m] = targets of `export * as ns<k> from`
+  let mut star: Vec<Vec<usize>> = vec![Vec::new(); n_modules];
+  let mut named: Vec<Vec<(usize, u8, u16)>> = vec![Vec::new(); n_modules];
+  let mut ns: Vec<Vec<usize>> = vec![Vec::new(); n_modules];
+  // Cycles of pass-through re-exports (`export *` / by-name) are left out:
+  // fast check follows the first `export *` whose target lists a name even
+  // when that listing only leads back through the cycle (a recorded finding,
+  // see known_findings.json); `allow_named_cycle` keeps them for that case.
+  let mut excluded_cycles = 0usize;
+  let mut in_cycle = false;
+  {
+    let mut used: BTreeSet<(usize, usize, u8)> = BTreeSet::new();
+    let mut pass: Vec<Vec<usize>> = vec![Vec::new(); n_modules];
+    let mut all: Vec<(usize, usize, u8, u16)> = Vec::new();
+    for (m, style) in &raw.reexports {
+      all.push((0, (*m as usize) % n_modules, *style % 4, 0));
+    }
+    for (from, to, style, pickv) in &raw.inner_reexports {
+      let from = (*from as usize) % n_modules;
+      if from != 0 {
+        all.push((from, (*to as usize) % n_modules, *style % 4, *pickv));
+      }
+    }
+    for (from, to, style, pickv) in all {
+      if from == to || !used.insert((from, to, style)) {
+        continue;
+      }
+      if style != 2 {
+        // would `to` pass things back to `from`?
+        let mut seen: BTreeSet<usize> = BTreeSet::new();
+        let mut work = vec![to];
+        let mut cyc = false;
+        while let Some(x) = work.pop() {
+          if x == from {
+            cyc = true;
+            break;
+          }
+          if seen.insert(x) {
+            work.extend(pass[x].iter().copied());
+          }
+        }
+        if cyc {
+          if raw.allow_named_cycle {
+            in_cycle = true;
+          } else {
+            excluded_cycles += 1;
+            continue;
+          }
+        }
+        pass[from].push(to);
+      }
+      match style {
+        1 => star[from].push(to),
+        2 => ns[from].push(to),
+        s => named[from].push((to, s, pickv)),
       }
     }
   }
-  for i in must_export {
-    decls[i].exported = true;
+  let mut star_reach: Vec<BTreeSet<usize>> = vec![BTreeSet::new(); n_modules];
+  // star_dist[m][t] = number of `export *` hops from m to t (0 = unreachable)
+  let mut star_dist: Vec<Vec<usize>> = vec![vec![0; n_modules]; n_modules];
+  for m in 0..n_modules {
+    let mut work: std::collections::VecDeque<(usize, usize)> = star[m].iter().map(|t| (*t, 1)).collect();
+    while let Some((t, d)) = work.pop_front() {
+      if t != m && star_reach[m].insert(t) {
+        star_dist[m][t] = d;
+        work.extend(star[t].iter().map(|u| (*u, d + 1)));
+      }
+    }
   }
 
-  let mut outs: Vec<ModuleOut> = (0..n_modules)
+  let outs: Vec<ModuleOut> = (0..n_modules)
     .map(|_| ModuleOut {
       imports: BTreeMap::new(),
       ns_imports: BTreeSet::new(),
       body: String::new(),
     })
     .collect();
-  let mut rec = Recorded::default();
-
-  // text of a reference to declaration `j` from declaration `i`
-  let mut ref_text = |i: usize, j: usize, type_pos: bool, raw: &RawPackage, outs: &mut Vec<ModuleOut>, rec: &mut Recorded| -> String {
-    let from = decls[i].module;
-    let to = decls[j].module;
-    let name = decls[j].name.clone();
-    let typeof_needed = type_pos && !decls[j].kind.is_type();
-    let base = if from == to {
-      name.clone()
-    } else {
-      rec.cross_module_refs += 1;
-      let style = raw.decls[i].import_style % 4;
-      match style {
-        2 => {
-          outs[from].ns_imports.insert(to);
-          format!("m{to}.{name}")
-        }
-        3 if type_pos && !typeof_needed => {
-          format!("import(\".{}\").{name}", MODULE_PATHS[to])
-        }
-        1 if type_pos && decls[j].kind.is_type() && !matches!(decls[j].kind, Kind::Class | Kind::Enum) => {
-          outs[from].imports.entry((to, 1)).or_default().insert(name.clone());
-          name.clone()
-        }
-        _ => {
-          outs[from].imports.entry((to, 0)).or_default().insert(name.clone());
-          name.clone()
-        }
-      }
-    };
-    if typeof_needed {
-      format!("typeof {base}")
-    } else {
-      base
-    }
+  let mut cx = Ctx {
+    raw,
+    decls,
+    outs,
+    rec: Recorded {
+      named_reexport_in_cycle: in_cycle,
+      excluded_named_cycles: excluded_cycles,
+      ..Default::default()
+    },
+    star_reach,
+    star_dist,
   };
 
-  for i in 0..decls.len() {
-    let d = decls[i].clone();
+  // ----- render the declarations
+  for i in 0..cx.decls.len() {
+    let d = cx.decls[i].clone();
     let r = &raw.decls[i];
-    let exp = if d.exported { "export " } else { "" };
-    let sig: Vec<String> = d
-      .sig_refs
-      .iter()
-      .map(|j| ref_text(i, *j, true, raw, &mut outs, &mut rec))
-      .collect();
-    let imp: Vec<String> = d
-      .impl_refs
-      .iter()
-      .map(|j| ref_text(i, *j, true, raw, &mut outs, &mut rec))
-      .collect();
-    let body_impl = if imp.is_empty() {
-      String::new()
-    } else {
-      let mut s = String::new();
-      for (k, t) in imp.iter().enumerate() {
-        s.push_str(&format!(" const t{k}: {t} = null as any; void t{k};"));
-      }
-      s
+    let v = r.variant as usize;
+    let sh = r.shape as usize;
+    let mut sl = Slots {
+      sig: d.sig_refs.iter().map(|j| (*j, false)).collect(),
+      imp: d.impl_refs.iter().map(|j| (*j, false)).collect(),
+      prim: i,
     };
-    let ty = |k: usize| -> String {
-      sig.get(k).cloned().unwrap_or_else(|| ["number", "string", "boolean"][k % 3].to_string())
-    };
-    let name = &d.name;
+    let name = d.name.clone();
+    let mut generic = false;
+    let mut member_refs: Vec<usize> = Vec::new();
     let text = match d.kind {
       Kind::Class => {
-        // heritage: only a class declared earlier in the same package
-        let ext = d
-          .sig_refs
-          .iter()
-          .enumerate()
-          .find(|(_, j)| decls[**j].kind == Kind::Class)
-          .map(|(k, _)| sig[k].trim_start_matches("typeof ").to_string());
-        let mut s = format!("{exp}class {name}");
-        if r.variant % 2 == 1 {
-          s.push_str("<T = unknown>");
+        let is_abstract = sh & 0x100 != 0;
+        let mut s = format!("{EXP}{}class {name}", if is_abstract { "abstract " } else { "" });
+        if is_abstract {
+          cx.rec.shapes.insert("abstract-class");
         }
-        if let Some(e) = &ext {
-          s.push_str(&format!(" extends {e}"));
+        match v % 4 {
+          1 => {
+            s.push_str("<T = unknown>");
+            generic = true;
+          }
+          2 => {
+            let c = sl.s(&mut cx, i);
+            let dflt = sl.s(&mut cx, i);
+            s.push_str(&format!("<T extends {c} = {dflt}>"));
+            generic = true;
+            cx.rec.shapes.insert("type-param-constraint-and-default");
+          }
+          _ => {}
+        }
+        let ext = sl.s_kind(&mut cx, i, |k| k == Kind::Class);
+        if let Some((j, e)) = &ext {
+          if cx.decls[*j].generic {
+            let a = sl.s(&mut cx, i);
+            s.push_str(&format!(" extends {e}<{a}>"));
+            cx.rec.shapes.insert("heritage-type-arguments");
+          } else {
+            s.push_str(&format!(" extends {e}"));
+          }
+        }
+        if sh & 0x200 != 0 {
+          if let Some((j, e)) = sl.s_kind(&mut cx, i, |k| k == Kind::Interface) {
+            if cx.decls[j].generic {
+              let a = sl.s(&mut cx, i);
+              s.push_str(&format!(" implements {e}<{a}>"));
+              cx.rec.shapes.insert("heritage-type-arguments");
+            } else {
+              s.push_str(&format!(" implements {e}"));
+            }
+          }
         }
         s.push_str(" {\n");
-        s.push_str(&format!("  p0: {};\n", ty(0)));
-        s.push_str(&format!("  static s0: {} = null as any;\n", ty(1)));
-        s.push_str("  private q0: number = 0;\n");
-        s.push_str("  #h0 = 1;\n");
-        if ext.is_some() {
-          s.push_str("  constructor(x: number) { super(x); this.#h0 = x; }\n");
-        } else {
-          s.push_str(&format!("  constructor(x: number) {{ this.#h0 = x;{body_impl} }}\n"));
+        s.push_str(&format!("  p0: {};\n", sl.s(&mut cx, i)));
+        if sh & 1 != 0 {
+          s.push_str(&format!("  readonly r0?: {};\n", sl.s(&mut cx, i)));
         }
-        s.push_str(&format!("  m0(a: {}, b?: number): {} {{{body_impl} return null as any; }}\n", ty(0), ty(1)));
-        s.push_str("  get g0(): number { return this.#h0; }\n");
-        s.push_str("  private pm(): void {}\n");
-        match r.explicitness {
-          1 => s.push_str("  inferred = 1;\n  v0() {}\n"),
-          _ => {}
+        s.push_str(&format!("  static s0: {} = null as any;\n", sl.s(&mut cx, i)));
+        if sh & 2 != 0 {
+          s.push_str(&format!("  protected pr0: {} = null as any;\n", sl.s(&mut cx, i)));
+          cx.rec.shapes.insert("protected-member");
+        }
+        s.push_str(&format!("  private q0: {} = null as any;\n", sl.i_or(&mut cx, i, "number")));
+        s.push_str("  #h0 = 1;\n");
+        let sup = if ext.is_some() { " super(null as any);" } else { "" };
+        match (v >> 2) % 4 {
+          0 => {
+            let a = sl.s(&mut cx, i);
+            let b = sl.body(&mut cx, i);
+            s.push_str(&format!("  constructor(x: {a}) {{{sup} this.#h0 = 2;{b} }}\n"));
+          }
+          1 => {
+            let a = sl.s(&mut cx, i);
+            let b0 = sl.s(&mut cx, i);
+            // (the property is private, the constructor parameter is public)
+            let pv = sl.s(&mut cx, i);
+            let b = sl.body(&mut cx, i);
+            s.push_str(&format!(
+              "  constructor(protected pp: {a}, public readonly ro: {b0}, private pv: {pv}, x = 1) {{{sup} this.#h0 = x; void this.pv;{b} }}\n"
+            ));
+            cx.rec.shapes.insert("parameter-properties");
+          }
+          2 => {
+            let a = sl.i_or(&mut cx, i, "number");
+            let b = sl.body(&mut cx, i);
+            s.push_str(&format!(
+              "  private constructor(a: {a}, b?: string) {{{sup} this.#h0 = 3; void a; void b;{b} }}\n"
+            ));
+            cx.rec.shapes.insert("private-constructor-with-body");
+          }
+          _ => {
+            let a = sl.s(&mut cx, i);
+            let a2 = sl.s(&mut cx, i);
+            let im = sl.i_or(&mut cx, i, "any");
+            let b = sl.body(&mut cx, i);
+            s.push_str(&format!("  constructor(a: {a});\n  constructor(a: {a2}, b: number);\n"));
+            s.push_str(&format!("  constructor(a: {im} | any, b?: any) {{{sup} void a; void b;{b} }}\n"));
+            cx.rec.shapes.insert("constructor-overloads");
+          }
+        }
+        if sh & 4 != 0 {
+          let p = sl.i_or(&mut cx, i, "string");
+          s.push_str(&format!("  private static ps(opt: {p}): void {{}}\n"));
+        }
+        {
+          let a = sl.s(&mut cx, i);
+          let ret = sl.s(&mut cx, i);
+          s.push_str(&format!("  m0(a: {a}, b?: number): {ret} {{ return null as any; }}\n"));
+        }
+        if sh & 8 != 0 {
+          let a = sl.s(&mut cx, i);
+          let a2 = sl.s(&mut cx, i);
+          let im = sl.i_or(&mut cx, i, "any");
+          s.push_str(&format!("  m1(a: {a}): void;\n  m1(a: {a2}, b: string): void;\n"));
+          s.push_str(&format!("  m1(a: {im} | any, b?: any): void {{ void a; void b; }}\n"));
+          cx.rec.shapes.insert("method-overloads");
+        }
+        {
+          let g = sl.s(&mut cx, i);
+          s.push_str(&format!("  get g0(): {g} {{ return null as any; }}\n"));
+          if sh & 16 != 0 {
+            s.push_str(&format!("  set g0(v: {g}) {{ void v; }}\n"));
+            cx.rec.shapes.insert("getter-and-setter");
+          }
+        }
+        if sh & 32 != 0 {
+          let a = sl.s(&mut cx, i);
+          s.push_str(&format!("  static sm(a: {a}): {a} {{ return a; }}\n"));
+        }
+        {
+          let p = sl.i_or(&mut cx, i, "number");
+          s.push_str(&format!("  private pm(a: {p}): void {{ void a; }}\n"));
+        }
+        if is_abstract {
+          let a = sl.s(&mut cx, i);
+          s.push_str(&format!("  abstract am(a: {a}): {a};\n"));
+        }
+        if r.explicitness == 1 {
+          s.push_str("  inferred = 1;\n  v0() {}\n");
         }
         s.push_str("}\n");
         s
       }
       Kind::Interface => {
-        let ext: Vec<String> = d
-          .sig_refs
-          .iter()
-          .enumerate()
-          .filter(|(_, j)| matches!(decls[**j].kind, Kind::Interface | Kind::Class))
-          .map(|(k, _)| sig[k].clone())
-          .filter(|t| !t.starts_with("import("))
-          .collect();
-        let mut s = format!("{exp}interface {name}");
+        let mut s = format!("{EXP}interface {name}");
+        match v % 4 {
+          1 => {
+            s.push_str("<T = unknown>");
+            generic = true;
+          }
+          2 => {
+            let c = sl.s(&mut cx, i);
+            let dflt = sl.s(&mut cx, i);
+            s.push_str(&format!("<T extends {c} = {dflt}>"));
+            generic = true;
+            cx.rec.shapes.insert("type-param-constraint-and-default");
+          }
+          _ => {}
+        }
+        let mut ext: Vec<String> = Vec::new();
+        while ext.len() < 2 {
+          let Some((j, e)) = sl.s_kind(&mut cx, i, |k| matches!(k, Kind::Interface | Kind::Class)) else { break };
+          if cx.decls[j].generic {
+            let a = sl.s(&mut cx, i);
+            ext.push(format!("{e}<{a}>"));
+            cx.rec.shapes.insert("heritage-type-arguments");
+          } else {
+            ext.push(e);
+          }
+        }
         if !ext.is_empty() {
           s.push_str(&format!(" extends {}", ext.join(", ")));
         }
-        s.push_str(&format!(" {{\n  a: {};\n  b(x: {}): void;\n}}\n", ty(0), ty(1)));
+        s.push_str(" {\n");
+        s.push_str(&format!("  a: {};\n", sl.s(&mut cx, i)));
+        s.push_str(&format!("  b(x: {}): void;\n", sl.s(&mut cx, i)));
+        if sh & 1 != 0 {
+          s.push_str(&format!("  c?: {};\n", sl.s(&mut cx, i)));
+        }
+        if sh & 2 != 0 {
+          s.push_str(&format!("  readonly d: {};\n", sl.s(&mut cx, i)));
+        }
+        if sh & 4 != 0 {
+          let a = sl.s(&mut cx, i);
+          let a2 = sl.s(&mut cx, i);
+          s.push_str(&format!("  e(x: {a}): void;\n  e(x: {a2}, y: number): void;\n"));
+          cx.rec.shapes.insert("method-overloads");
+        }
+        if sh & 8 != 0 {
+          let a = sl.s(&mut cx, i);
+          s.push_str(&format!("  (x: {a}): {a};\n"));
+        }
+        if sh & 16 != 0 {
+          let a = sl.s(&mut cx, i);
+          s.push_str(&format!("  new (x: {a}): object;\n"));
+        }
+        if sh & 32 != 0 {
+          s.push_str(&format!("  [k: `x-${{string}}`]: {};\n", sl.s(&mut cx, i)));
+        }
+        if sh & 64 != 0 {
+          let a = sl.s(&mut cx, i);
+          s.push_str(&format!("  get g(): {a};\n  set g(v: {a});\n"));
+        }
+        s.push_str("}\n");
         s
       }
-      Kind::Alias => match r.variant % 3 {
-        0 => format!("{exp}type {name} = {} | {}[];\n", ty(0), ty(1)),
-        1 => format!("{exp}type {name}<T = {}> = {{ v: T; w: {} }};\n", ty(0), ty(1)),
-        _ => format!("{exp}type {name} = Record<string, {}>;\n", ty(0)),
+      Kind::Alias => match v % 8 {
+        0 => format!("{EXP}type {name} = {} | {}[];\n", sl.s(&mut cx, i), sl.s(&mut cx, i)),
+        1 => {
+          generic = true;
+          format!("{EXP}type {name}<T = {}> = {{ v: T; w: {} }};\n", sl.s(&mut cx, i), sl.s(&mut cx, i))
+        }
+        2 => format!("{EXP}type {name} = Record<string, {}>;\n", sl.s(&mut cx, i)),
+        3 => {
+          generic = true;
+          cx.rec.shapes.insert("type-param-constraint-and-default");
+          let c = sl.s(&mut cx, i);
+          let dflt = sl.s(&mut cx, i);
+          let a = sl.s(&mut cx, i);
+          let b = sl.s(&mut cx, i);
+          format!("{EXP}type {name}<T extends {c} = {dflt}> = T extends {a} ? {b} : never;\n")
+        }
+        4 => {
+          let a = sl.s(&mut cx, i);
+          let b = sl.s(&mut cx, i);
+          format!("{EXP}type {name} = {{ [K in keyof {a}]: {b} }};\n")
+        }
+        5 => format!("{EXP}type {name} = [{}, {}?];\n", sl.s(&mut cx, i), sl.s(&mut cx, i)),
+        6 => {
+          let a = sl.s(&mut cx, i);
+          let b = sl.s(&mut cx, i);
+          let c = sl.s(&mut cx, i);
+          format!("{EXP}type {name} = (a: {a}, ...r: {b}[]) => {c};\n")
+        }
+        _ => format!("{EXP}type {name} = {}[\"a\"] | `p-${{string}}`;\n", sl.s(&mut cx, i)),
       },
-      Kind::Enum => match r.variant % 2 {
-        0 => format!("{exp}enum {name} {{ A, B = 2, C }}\n"),
-        _ => format!("{exp}enum {name} {{ X = \"x\", Y = \"y\" }}\n"),
+      Kind::Enum => match v % 3 {
+        0 => format!("{EXP}enum {name} {{ A, B = 2, C }}\n"),
+        1 => format!("{EXP}enum {name} {{ X = \"x\", Y = \"y\" }}\n"),
+        _ => format!("{EXP}const enum {name} {{ P = 1, Q = P << 1 }}\n"),
       },
       Kind::Function => match r.explicitness {
-        2 => format!("{exp}function {name}(a: {}) {{{body_impl} return Math.random() > 0.5 ? a : globalThis.name; }}\n", ty(0)),
-        1 => format!("{exp}function {name}(a: {}, b = 1) {{{body_impl} }}\n", ty(0)),
-        _ => format!("{exp}function {name}(a: {}, b: number = 1): {} {{{body_impl} return null as any; }}\n", ty(0), ty(1)),
-      },
-      Kind::Var => match r.explicitness {
-        2 => format!("{exp}const {name} = globalThis.structuredClone({{ x: Math.random() }});\n"),
-        1 => match r.variant % 3 {
-          0 => format!("{exp}const {name} = 1;\n"),
-          1 => format!("{exp}const {name} = \"s\";\n"),
-          _ => format!("{exp}let {name} = true;\n"),
-        },
+        2 => {
+          let a = sl.s(&mut cx, i);
+          let b = sl.body(&mut cx, i);
+          format!("{EXP}function {name}(a: {a}) {{{b} return Math.random() > 0.5 ? a : globalThis.name; }}\n")
+        }
+        1 => {
+          let a = sl.s(&mut cx, i);
+          let b = sl.body(&mut cx, i);
+          format!("{EXP}function {name}(a: {a}, b = 1) {{{b} }}\n")
+        }
         _ => {
-          let init = if imp.is_empty() {
-            "null as any".to_string()
-          } else {
-            format!("((): any => {{{body_impl} return null; }})()")
+          let mut s = match v % 5 {
+            0 => {
+              let a = sl.s(&mut cx, i);
+              let ret = sl.s(&mut cx, i);
+              let b = sl.body(&mut cx, i);
+              format!("{EXP}function {name}(a: {a}, b: number = 1): {ret} {{{b} return null as any; }}\n")
+            }
+            1 => {
+              generic = true;
+              cx.rec.shapes.insert("type-param-constraint-and-default");
+              let c = sl.s(&mut cx, i);
+              let dflt = sl.s(&mut cx, i);
+              let rest = sl.s(&mut cx, i);
+              let ret = sl.s(&mut cx, i);
+              let b = sl.body(&mut cx, i);
+              format!(
+                "{EXP}function {name}<T extends {c} = {dflt}>(a: T, ...rest: {rest}[]): {ret} {{{b} return null as any; }}\n"
+              )
+            }
+            2 => {
+              cx.rec.shapes.insert("function-overloads");
+              let a = sl.s(&mut cx, i);
+              let r1 = sl.s(&mut cx, i);
+              let a2 = sl.s(&mut cx, i);
+              let im = sl.i_or(&mut cx, i, "any");
+              let b = sl.body(&mut cx, i);
+              format!(
+                "{EXP}function {name}(a: {a}): {r1};\n{EXP}function {name}(a: {a2}, b: string): {r1};\n{EXP}function {name}(a: {im} | any, b?: any): any {{{b} return null as any; }}\n"
+              )
+            }
+            3 => {
+              let a = sl.s(&mut cx, i);
+              let c = sl.s(&mut cx, i);
+              let b = sl.body(&mut cx, i);
+              format!(
+                "{EXP}function {name}({{ a, b }}: {{ a: {a}; b: number }}, [c]: [{c}]): void {{ void a; void b; void c;{b} }}\n"
+              )
+            }
+            _ => {
+              let a = sl.s(&mut cx, i);
+              let ret = sl.s(&mut cx, i);
+              let b = sl.body(&mut cx, i);
+              format!("{EXP}async function {name}(a: {a}): Promise<{ret}> {{{b} return null as any; }}\n")
+            }
           };
-          format!("{exp}const {name}: {} = {init};\n", ty(0))
+          if sh & 1 != 0 && v % 5 != 2 {
+            // expando properties (become a namespace in the output)
+            let a = sl.s(&mut cx, i);
+            s.push_str(&format!("{name}.tag = \"x\";\n{name}.make = (a: {a}): {a} => a;\n"));
+            cx.rec.shapes.insert("expando-properties");
+          }
+          s
         }
       },
+      Kind::Var => match r.explicitness {
+        2 => format!("{EXP}const {name} = globalThis.structuredClone({{ x: Math.random() }});\n"),
+        1 => match v % 6 {
+          0 => format!("{EXP}const {name} = 1;\n"),
+          1 => format!("{EXP}const {name} = \"s\";\n"),
+          2 => format!("{EXP}let {name} = true;\n"),
+          3 => format!("{EXP}const {name} = -1;\n"),
+          4 => format!("{EXP}const {name} = `t`;\n"),
+          _ => format!("{EXP}const {name} = 10n;\n"),
+        },
+        3 => {
+          cx.rec.shapes.insert("initialiser-of-unknown-standing");
+          let init = match v % 10 {
+            0 => "[Math.random(), 1]".to_string(),
+            1 => "{ a: Math.random(), b: 1 }".to_string(),
+            2 => "true ? 1 : Math.random()".to_string(),
+            3 => "`t${Math.random()}`".to_string(),
+            4 => "new Map<string, number>()".to_string(),
+            5 => "[1, \"a\"]".to_string(),
+            6 => "{ a: 1, b: [2, { c: \"x\" }] }".to_string(),
+            7 => "{ f: (a: number): string => String(a), g(a: number): void { void a; } }".to_string(),
+            8 => "[globalThis.name, 2] as const".to_string(),
+            _ => "{ a: 1, b: \"x\" } as const".to_string(),
+          };
+          format!("{EXP}const {name} = {init};\n")
+        }
+        _ => match v % 4 {
+          1 => {
+            cx.rec.shapes.insert("annotated-arrow-function");
+            let a = sl.s(&mut cx, i);
+            let ret = sl.s(&mut cx, i);
+            let b = sl.body(&mut cx, i);
+            format!("{EXP}const {name} = (a: {a}, b: number = 1): {ret} => {{{b} void a; void b; return null as any; }};\n")
+          }
+          2 => format!("{EXP}let {name}: {} | undefined;\n", sl.s(&mut cx, i)),
+          3 => {
+            let a = sl.s(&mut cx, i);
+            let ret = sl.s(&mut cx, i);
+            let b = sl.body(&mut cx, i);
+            format!("{EXP}const {name} = function (a: {a}): {ret} {{{b} void a; return null as any; }};\n")
+          }
+          _ => {
+            let t = sl.s(&mut cx, i);
+            let b = sl.body(&mut cx, i);
+            let init = if b.is_empty() {
+              "null as any".to_string()
+            } else {
+              format!("((): any => {{{b} return null; }})()")
+            };
+            format!("{EXP}const {name}: {t} = {init};\n")
+          }
+        },
+      },
       Kind::Namespace => {
-        let mut s = format!("{exp}namespace {name} {{\n");
-        s.push_str(&format!("  export interface In {{ a: {}; }}\n", ty(0)));
+        let mut s = format!("{EXP}namespace {name} {{\n");
+        s.push_str(&format!("  export interface In {{ a: {}; }}\n", sl.s(&mut cx, i)));
+        member_refs = sl.sig.iter().filter(|x| x.1).map(|x| x.0).collect();
         s.push_str("  interface Hidden { h: number; }\n");
-        s.push_str(&format!("  export const v: {} = null as any;\n", ty(1)));
+        s.push_str(&format!("  export const v: {} = null as any;\n", sl.s(&mut cx, i)));
         s.push_str("  export type Inner = In | Hidden;\n");
+        if v % 3 == 1 {
+          let a = sl.s(&mut cx, i);
+          s.push_str(&format!("  export function f(a: {a}): {a} {{ return a; }}\n"));
+        }
+        if v % 3 == 2 {
+          s.push_str(&format!("  export namespace Deep {{ export type T = {}; }}\n", sl.s(&mut cx, i)));
+        }
         s.push_str("}\n");
         s
       }
     };
-    outs[d.module].body.push_str(&text);
-    rec
+    // only the references that were written count
+    cx.decls[i].sig_refs = sl.sig.iter().filter(|x| x.1).map(|x| x.0).collect();
+    cx.decls[i].impl_refs = sl.imp.iter().filter(|x| x.1).map(|x| x.0).collect();
+    cx.decls[i].generic = generic;
+    cx.decls[i].member_refs = member_refs;
+    let m = cx.decls[i].module;
+    cx.outs[m].body.push_str(&format!("\u{2}{i}\u{2}{text}"));
+    cx
+      .rec
       .declared
-      .entry(MODULE_PATHS[d.module].to_string())
+      .entry(MODULE_PATHS[m].to_string())
       .or_default()
-      .insert(d.name.clone());
+      .insert(name);
   }
 
-  // entry module re-exports
-  let mut entry_tail = String::new();
-  let mut entry_named: BTreeSet<String> = BTreeSet::new();
-  let mut entry_star: Vec<usize> = Vec::new();
-  let mut entry_reexported: Vec<(usize, String)> = Vec::new(); // (module, name) reachable by name
-  let mut ns_exports: Vec<usize> = Vec::new();
-  let mut used_styles: BTreeSet<(usize, u8)> = BTreeSet::new();
-  for (m, style) in &raw.reexports {
-    let m = (*m as usize) % n_modules;
-    if m == 0 || !used_styles.insert((m, *style % 4)) {
-      continue;
+  // anything referenced from another module must be exported by its module
+  let mut must_export: BTreeSet<usize> = BTreeSet::new();
+  for d in &cx.decls {
+    for r in d.sig_refs.iter().chain(d.impl_refs.iter()) {
+      if cx.decls[*r].module != d.module {
+        must_export.insert(*r);
+      }
     }
-    let exported_there: Vec<&Decl> = decls.iter().filter(|d| d.module == m && d.exported).collect();
-    match style % 4 {
-      1 => {
-        if !entry_star.contains(&m) {
-          entry_tail.push_str(&format!("export * from \".{}\";\n", MODULE_PATHS[m]));
-          entry_star.push(m);
+  }
+  for i in must_export {
+    cx.decls[i].exported = true;
+  }
+  // fill in the `export` keywords
+  for m in 0..n_modules {
+    let body = std::mem::take(&mut cx.outs[m].body);
+    // chunks alternate: index, text
+    let mut parts = body.split('\u{2}').skip(1);
+    let mut text = String::new();
+    while let (Some(i), Some(t)) = (parts.next(), parts.next()) {
+      let i: usize = i.parse().unwrap();
+      let kw = if cx.decls[i].exported { "export " } else { "" };
+      text.push_str(&t.replace(EXP, kw));
+    }
+    cx.outs[m].body = text;
+  }
+
+  // ----- exports reachable per module (declaration indices)
+  let own = |m: usize, decls: &Vec<Decl>| -> BTreeSet<usize> {
+    decls.iter().enumerate().filter(|(_, d)| d.module == m && d.exported).map(|(i, _)| i).collect()
+  };
+  // names chosen for named re-exports: from what the target passes on
+  let resolved_of = |decls: &Vec<Decl>, named_sel: &Vec<Vec<(usize, Vec<usize>)>>| -> Vec<BTreeSet<usize>> {
+    let mut r: Vec<BTreeSet<usize>> = (0..n_modules).map(|m| own(m, decls)).collect();
+    loop {
+      let mut changed = false;
+      for m in 0..n_modules {
+        let mut add: BTreeSet<usize> = BTreeSet::new();
+        for t in &star[m] {
+          add.extend(r[*t].iter().copied());
         }
-      }
-      2 => {
-        if !ns_exports.contains(&m) {
-          entry_tail.push_str(&format!("export * as ns{m} from \".{}\";\n", MODULE_PATHS[m]));
-          ns_exports.push(m);
-          entry_named.insert(format!("ns{m}"));
+        for (_, sel) in &named_sel[m] {
+          add.extend(sel.iter().copied());
         }
-      }
-      s => {
-        // named re-export of up to two exported declarations of that module
-        let names: Vec<&Decl> = exported_there
-          .iter()
-          .filter(|d| !entry_named.contains(&d.name))
-          .filter(|d| if s == 3 { matches!(d.kind, Kind::Interface | Kind::Alias) } else { true })
-          .take(2)
-          .cloned()
-          .collect();
-        if !names.is_empty() {
-          let list: Vec<String> = names.iter().map(|d| d.name.clone()).collect();
-          let kw = if s == 3 { "export type" } else { "export" };
-          entry_tail.push_str(&format!("{kw} {{ {} }} from \".{}\";\n", list.join(", "), MODULE_PATHS[m]));
-          for d in names {
-            entry_named.insert(d.name.clone());
-            entry_reexported.push((m, d.name.clone()));
+        for a in add {
+          if r[m].insert(a) {
+            changed = true;
           }
         }
       }
+      if !changed {
+        return r;
+      }
+    }
+  };
+  // first without named selections, to know what each target offers
+  let mut named_sel: Vec<Vec<(usize, Vec<usize>)>> = vec![Vec::new(); n_modules];
+  let offered = resolved_of(&cx.decls, &named_sel);
+  let mut tails: Vec<String> = vec![String::new(); n_modules];
+  let mut public_via_ns: BTreeSet<usize> = BTreeSet::new();
+  for m in 0..n_modules {
+    let mut already: BTreeSet<usize> = own(m, &cx.decls);
+    for t in &star[m] {
+      tails[m].push_str(&format!("export * from \"{}\";\n", rel(MODULE_PATHS[m], MODULE_PATHS[*t], false)));
+      already.extend(offered[*t].iter().copied());
+      cx.rec.shapes.insert(if m == 0 { "entry-star-re-export" } else { "inner-star-re-export" });
+    }
+    for t in &ns[m] {
+      tails[m].push_str(&format!(
+        "export * as ns{t} from \"{}\";\n",
+        rel(MODULE_PATHS[m], MODULE_PATHS[*t], false)
+      ));
+    }
+    for (t, s, pickv) in named[m].clone() {
+      let cands: Vec<usize> = offered[t]
+        .iter()
+        .copied()
+        .filter(|i| !already.contains(i))
+        .filter(|i| if s == 3 { matches!(cx.decls[*i].kind, Kind::Interface | Kind::Alias) } else { true })
+        .collect();
+      if cands.is_empty() {
+        continue;
+      }
+      // every other time: the names that come the longest way
+      let mut cands = cands;
+      if pickv % 2 == 1 {
+        cands.sort_by_key(|i| std::cmp::Reverse(cx.star_dist[t][cx.decls[*i].module]));
+      }
+      let start = if pickv % 2 == 1 { 0 } else { idx(pickv, cands.len()) };
+      let sel: Vec<usize> = cands.iter().cycle().skip(start).take(2.min(cands.len())).copied().collect();
+      if sel.iter().any(|i| cx.star_dist[t][cx.decls[*i].module] >= 2) {
+        cx.rec.shapes.insert("named-re-export-through-two-star-hops");
+      }
+      let list: Vec<String> = sel.iter().map(|i| cx.decls[*i].name.clone()).collect();
+      let kw = if s == 3 { "export type" } else { "export" };
+      tails[m].push_str(&format!(
+        "{kw} {{ {} }} from \"{}\";\n",
+        list.join(", "),
+        rel(MODULE_PATHS[m], MODULE_PATHS[t], false)
+      ));
+      if sel.iter().any(|i| cx.decls[*i].module != t) {
+        cx.rec.shapes.insert("named-re-export-through-star-chain");
+      }
+      already.extend(sel.iter().copied());
+      named_sel[m].push((t, sel));
     }
   }
+  let resolved = resolved_of(&cx.decls, &named_sel);
+
   // default export of an entry-module declaration
-  let mut default_name: Option<String> = None;
+  let mut default_decl: Option<usize> = None;
   if let Some(di) = raw.default_export {
-    let cands: Vec<&Decl> = decls
+    let cands: Vec<usize> = cx
+      .decls
       .iter()
-      .filter(|d| d.module == 0 && matches!(d.kind, Kind::Class | Kind::Function | Kind::Var | Kind::Enum))
+      .enumerate()
+      .filter(|(_, d)| d.module == 0 && matches!(d.kind, Kind::Class | Kind::Function | Kind::Var | Kind::Enum))
+      .map(|(i, _)| i)
       .collect();
     if !cands.is_empty() {
-      let d = cands[idx(di, cands.len())];
-      entry_tail.push_str(&format!("export {{ {} as default }};\n", d.name));
-      default_name = Some(d.name.clone());
+      let i = cands[idx(di, cands.len())];
+      if di % 2 == 0 {
+        tails[0].push_str(&format!("export {{ {} as default }};\n", cx.decls[i].name));
+      } else {
+        tails[0].push_str(&format!("export default {};\n", cx.decls[i].name));
+      }
+      default_decl = Some(i);
     }
   }
-  outs[0].body.push_str(&entry_tail);
 
-  // assemble files
+  // ----- assemble files
   let mut files = BTreeMap::new();
-  for (m, o) in outs.iter().enumerate() {
+  for (m, o) in cx.outs.iter().enumerate() {
     let mut text = String::new();
-    for ((to, style), names) in &o.imports {
+    for ((to, style, nc), names) in &o.imports {
       let kw = if *style == 1 { "import type" } else { "import" };
       let names: Vec<String> = names.iter().cloned().collect();
-      text.push_str(&format!("{kw} {{ {} }} from \".{}\";\n", names.join(", "), MODULE_PATHS[*to]));
+      text.push_str(&format!(
+        "{kw} {{ {} }} from \"{}\";\n",
+        names.join(", "),
+        rel(MODULE_PATHS[m], MODULE_PATHS[*to], *nc)
+      ));
     }
     for to in &o.ns_imports {
-      text.push_str(&format!("import * as m{to} from \".{}\";\n", MODULE_PATHS[*to]));
+      text.push_str(&format!("import * as m{to} from \"{}\";\n", rel(MODULE_PATHS[m], MODULE_PATHS[*to], false)));
     }
     text.push_str(&o.body);
+    text.push_str(&tails[m]);
     if text.is_empty() {
       text.push_str("export {};\n");
     }
@@ -494,76 +1051,100 @@ pub fn build(raw: &RawPackage) -> Package {
   }
 
   // ----- the record
+  let mut rec = std::mem::take(&mut cx.rec);
+  let decls = cx.decls;
   let mut exports = vec![(".".to_string(), "./mod.ts".to_string())];
   let mut entry_modules = vec![0usize];
   if raw.second_entry && n_modules >= 3 {
-    exports.push(("./b".to_string(), "./b.ts".to_string()));
+    exports.push(("./b".to_string(), format!(".{}", MODULE_PATHS[2])));
     entry_modules.push(2);
   }
   rec.entrypoints = entry_modules.iter().map(|m| MODULE_PATHS[*m].to_string()).collect();
   for m in 0..n_modules {
-    let mut names: BTreeSet<String> = decls
-      .iter()
-      .filter(|d| d.module == m && d.exported)
-      .map(|d| d.name.clone())
-      .collect();
-    if m == 0 {
-      names.extend(entry_named.iter().cloned());
-      if default_name.is_some() {
-        names.insert("default".to_string());
-      }
-      rec.star_exports.insert(
-        MODULE_PATHS[0].to_string(),
-        entry_star.iter().map(|s| format!(".{}", MODULE_PATHS[*s])).collect(),
-      );
+    let mut names: BTreeSet<String> = own(m, &decls).iter().map(|i| decls[*i].name.clone()).collect();
+    for (_, sel) in &named_sel[m] {
+      names.extend(sel.iter().map(|i| decls[*i].name.clone()));
+    }
+    for t in &ns[m] {
+      names.insert(format!("ns{t}"));
+    }
+    if m == 0 && default_decl.is_some() {
+      names.insert("default".to_string());
     }
     rec.exports.insert(MODULE_PATHS[m].to_string(), names);
+    rec.star_exports.insert(
+      MODULE_PATHS[m].to_string(),
+      star[m].iter().map(|t| rel(MODULE_PATHS[m], MODULE_PATHS[*t], false)).collect(),
+    );
   }
-  // public roots: exported declarations of entry modules + re-exported ones
+  // public roots: everything an entrypoint passes on (own, named, star),
+  // everything behind a namespace re-export that is itself public, and the
+  // default export
   let mut work: Vec<usize> = Vec::new();
-  for d in decls.iter().enumerate() {
-    let (i, d) = d;
-    if entry_modules.contains(&d.module) && d.exported {
-      work.push(i);
-    }
-    if Some(&d.name) == default_name.as_ref() && d.module == 0 {
-      work.push(i);
-    }
-  }
-  for (m, name) in &entry_reexported {
-    if let Some(i) = decls.iter().position(|d| d.module == *m && &d.name == name) {
-      work.push(i);
-    }
-  }
-  for m in entry_star.iter().chain(ns_exports.iter()) {
-    for (i, d) in decls.iter().enumerate() {
-      if d.module == *m && d.exported {
-        work.push(i);
+  // modules whose whole resolved export set is public
+  let mut public_modules: BTreeSet<usize> = entry_modules.iter().copied().collect();
+  loop {
+    let mut changed = false;
+    for m in public_modules.clone() {
+      // `export * as ns from t` in a public module makes t public; so does `export *`
+      for t in ns[m].iter().chain(star[m].iter()) {
+        if public_modules.insert(*t) {
+          changed = true;
+        }
       }
     }
+    if !changed {
+      break;
+    }
   }
+  for m in &public_modules {
+    // star / ns targets pass on everything; entry modules too. A module that
+    // is public only as a star / ns target exposes its resolved exports.
+    work.extend(resolved[*m].iter().copied());
+    public_via_ns.extend(resolved[*m].iter().copied());
+  }
+  if let Some(i) = default_decl {
+    work.push(i);
+  }
+  // (declaration, whole?) - a namespace reached through `N.In` only is
+  // retained in part: just what `In` refers to becomes public with it
   let mut retained: BTreeSet<usize> = BTreeSet::new();
+  let mut whole: BTreeSet<usize> = BTreeSet::new();
   let mut depth: BTreeMap<usize, usize> = BTreeMap::new();
-  for w in &work {
+  let mut work: Vec<(usize, bool)> = work.into_iter().map(|w| (w, true)).collect();
+  for (w, _) in &work {
     depth.insert(*w, 0);
   }
-  while let Some(i) = work.pop() {
-    if !retained.insert(i) {
+  while let Some((i, all)) = work.pop() {
+    let first = retained.insert(i);
+    let upgrade = all && whole.insert(i);
+    if !first && !upgrade {
       continue;
     }
     let dep = depth.get(&i).copied().unwrap_or(0);
-    for j in &decls[i].sig_refs {
+    let refs: &Vec<usize> = if all { &decls[i].sig_refs } else { &decls[i].member_refs };
+    for j in refs {
       let e = depth.entry(*j).or_insert(dep + 1);
       *e = (*e).max(dep + 1);
       rec.max_chain = rec.max_chain.max(dep + 1);
-      work.push(*j);
+      // a reference to a namespace is the qualified name of its member
+      work.push((*j, decls[*j].kind != Kind::Namespace));
     }
   }
   for i in &retained {
     let d = &decls[*i];
     rec.retained.insert((MODULE_PATHS[d.module].to_string(), d.name.clone()));
+    if d.kind == Kind::Namespace && !whole.contains(i) {
+      rec.shapes.insert("namespace-retained-in-part");
+    }
+    if d.kind == Kind::Namespace && whole.contains(i) {
+      rec.whole_namespaces.insert((MODULE_PATHS[d.module].to_string(), d.name.clone()));
+    }
     if d.non_inferable {
       rec.expects_diagnostic = true;
+    }
+    if d.maybe_inferable {
+      rec.maybe_diagnostic = true;
     }
   }
   for (i, d) in decls.iter().enumerate() {
@@ -574,10 +1155,10 @@ pub fn build(raw: &RawPackage) -> Package {
           rec.has_impl_only_private = true;
         }
       }
-      for j in &d.sig_refs {
-        // kept only because a signature names it (its own module does not
-        // export it, or it is not an entrypoint export)
-        if !decls[*j].exported || !entry_modules.contains(&decls[*j].module) {
+      let followed = if whole.contains(&i) { &d.sig_refs } else { &d.member_refs };
+      for j in followed {
+        // kept only because a signature names it
+        if !public_via_ns.contains(j) {
           rec.has_sig_private = true;
         }
       }
